@@ -90,6 +90,17 @@ def run(ctx, res):
         else:
             res.bad("WORKER-LOOP", "json_session::eval_worker # loop-exit",
                     "eval_worker's request loop has an exit that is not the channel-closed case", w.loc())
+    # the session's :resume relies on every non-step exit of the interpreter loop restoring the popped
+    # expression (shared with C08): a lost entry makes a later pop run the value stack dry and kills the worker
+    from . import c08 as _c08
+    from ..core import Result as _R
+    sub = _R("C09")
+    _c08.run(ctx, sub)
+    for (rule, inst, st) in sub.obligations:
+        if st != "violated":
+            res.ok("C08:" + rule, inst, st)
+    for v in sub.violations:
+        res.bad("C08:" + v.rule, v.key, v.msg + " (then `:resume` re-enters an expression whose operands are gone)", v.where, v.data)
     res.explanation = (
         "No-panic inventory over everything the JSON session's worker thread can execute (%d functions), plus "
         "RESPONSE-ONCE as an interval path-count dataflow over handle_request_in_worker's CFG (with callee summaries "
